@@ -41,6 +41,9 @@ ASSUMPTIONS = [
     "cases with cond(X0)^2 > 1e10 are skipped as ambiguous (A not determined by the data in double precision)",
     "with PCA the retained subspace is unique only if sigma_k > sigma_{k+1}: relative gap < 1e-6 (exact back-end) or a randomised "
     "back-end whose sketch does not capture the range on a non-gapped spectrum -> ambiguous",
+    "noise-free oscillators: tolerance 1e-6*max(1, cond(X0)^2*kappa(eigenvectors)/1e9) (damping times additionally x max(1, 0.1/|log r|)): "
+    "the code's normal-equation inverse limits what 'the true ones' can mean in double precision",
+    "transform == scores to 1e-9*max(1, c/1e4), c = condition of the per-mode 2x2 system in (Re p, Im p)",
     "period of a negative real eigenvalue is 2*pi/pi = 2 (formula of the statement), infinite only where arg(lambda) = 0",
     "n_modes is ignored by POP (all retained-dimension many modes are returned); recorded, not asserted (not part of the statement)",
 ]
@@ -453,7 +456,19 @@ def run_case(case, obs):
     obs.tag(op="transform")
     obs.check("transform_dims", set(Tr.dims) == {"time", "mode"}, f"dims {Tr.dims}")
     Tm = xu.sample_matrix(Tr.sel(mode=modes), ["time"], coords)
-    obs.close("transform_equals_scores", Tm, S, 1e-9, scale=np.abs(S).max(), tags={"symptom": "transform_ne_scores"})
+    # both executions use the same per-mode 2x2 normal equations in (Re p, Im p); with PCA the pattern makes a round trip
+    # V^T(V p) first, so the two results differ by eps * cond of that 2x2 system (large only when Im p is almost parallel to Re p)
+    condM = 1.0
+    for i in range(k):
+        pr, pi = Ppc[:, i].real, Ppc[:, i].imag
+        if np.linalg.norm(pi) > 0 and np.linalg.norm(pr) > 0:
+            sv2 = np.linalg.svd(np.stack([pr, pi], axis=1), compute_uv=False)
+            condM = max(condM, float((sv2[0] / max(sv2[1], 1e-300)) ** 2))
+    obs.note("cond_coeff_system", condM)
+    if condM > 1e12:
+        obs.cell("transform:skipped_illconditioned")
+    else:
+        obs.close("transform_equals_scores", Tm, S, 1e-9 * max(1.0, condM / 1e4), scale=np.abs(S).max(), tags={"symptom": "transform_ne_scores"})
     obs.tag(op="fit")
 
     # ---- noise-free oscillator: the true periods and damping times -------------------
@@ -461,13 +476,17 @@ def run_case(case, obs):
         r, om = b["truth"]["r"], b["truth"]["om"]
         want = sorted([(2 * np.pi / w, -1 / np.log(rr)) for rr, w in zip(r, om)] + [(-2 * np.pi / w, -1 / np.log(rr)) for rr, w in zip(r, om)])
         got = sorted(zip(per.tolist(), dmp.tolist()))
+        # error model: the code's A carries eps*cond(X0)^2, its eigenvalues kappa(eigvectors) times that (Bauer-Fike);
+        # measured <= 1e-18*cond2*kappa.  d(tau)/tau = d|lambda| / (|lambda| |log|lambda||): up to 50x for |lambda| = 0.98.
+        tol_osc = 1e-6 * max(1.0, cond2 * kappa / 1e9)
+        tol_dmp = tol_osc * max(1.0, 0.1 / abs(np.log(r.max())))
         if len(got) == len(want) and np.all(np.isfinite(np.array(got))):
             got, want = np.array(got), np.array(want)
-            obs.close("oscillator_periods", got[:, 0], want[:, 0], 1e-6, scale=np.abs(want[:, 0]).max(), tags={"symptom": "oscillator_period"})
-            obs.close("oscillator_damping", got[:, 1], want[:, 1], 1e-6, scale=np.abs(want[:, 1]).max(), tags={"symptom": "oscillator_damping"})
+            obs.close("oscillator_periods", got[:, 0], want[:, 0], tol_osc, scale=np.abs(want[:, 0]).max(), tags={"symptom": "oscillator_period"})
+            obs.close("oscillator_damping", got[:, 1], want[:, 1], tol_dmp, scale=np.abs(want[:, 1]).max(), tags={"symptom": "oscillator_damping"})
             lam_true = np.concatenate([r * np.exp(1j * om), r * np.exp(-1j * om)])
             cost = np.abs(lam[:, None] - lam_true[None, :])
             ri, ci = linear_sum_assignment(cost)
-            obs.close("oscillator_eigenvalues", cost[ri, ci], np.zeros(k), 1e-6, scale=1.0, tags={"symptom": "oscillator_eigenvalue"})
+            obs.close("oscillator_eigenvalues", cost[ri, ci], np.zeros(k), tol_osc, scale=1.0, tags={"symptom": "oscillator_eigenvalue"})
         else:
             obs.check("oscillator_mode_count", False, f"{len(got)} finite (period, damping) pairs for {len(want)} true eigenvalues", tags={"symptom": "oscillator_period"})
